@@ -323,6 +323,36 @@ func (p *pkgInfo) c09readerInvalidates() bool {
 	return res
 }
 
+// c09offAfterSeek reports whether countReader.seek records the new offset
+// (r.off = off) only after the underlying Seek call and its error return.
+func (p *pkgInfo) c09offAfterSeek() bool {
+	fd := p.funcDecl("countReader", "seek")
+	assign, call, ret := token.NoPos, token.NoPos, token.NoPos
+	ast.Inspect(fd.Body, func(n ast.Node) bool {
+		switch n := n.(type) {
+		case *ast.AssignStmt:
+			if len(n.Lhs) == 1 && lastSel(n.Lhs[0]) == "off" {
+				if _, ok := n.Lhs[0].(*ast.SelectorExpr); ok && assign == token.NoPos {
+					assign = n.Pos()
+				}
+			}
+		case *ast.CallExpr:
+			if lastSel(n.Fun) == "Seek" && call == token.NoPos {
+				call = n.Pos()
+			}
+		case *ast.ReturnStmt:
+			if ret == token.NoPos && call != token.NoPos {
+				ret = n.Pos()
+			}
+		}
+		return true
+	})
+	if assign == token.NoPos || call == token.NoPos || ret == token.NoPos {
+		fatalf("%s: countReader.seek no longer has the shape Seek / error return / r.off = off", p.fset.Position(fd.Pos()))
+	}
+	return assign > call && assign > ret
+}
+
 // c10readerStrict reports whether readMember treats an exhausted or empty
 // member as an error: no `return io.EOF` in readMember, and io.ErrUnexpectedEOF
 // is produced for a short member.
@@ -350,6 +380,7 @@ func (p *pkgInfo) c10readerStrict() bool {
 func init() {
 	emitters["31_bgzf_writer_skeleton"] = func(w *bytes.Buffer) {
 		bg := load("bgzf")
+		fmt.Fprintf(w, "(* countReader.seek sets its offset only after a successful underlying Seek *)\nDefinition bgzf_countreader_off_after_seek : bool := %v.\n", bg.c09offAfterSeek())
 		fmt.Fprintf(w, "(* decompressor.readMember never reports a clean io.EOF for a member that has started *)\nDefinition bgzf_reader_strict : bool := %v.\n", bg.c10readerStrict())
 		fmt.Fprintf(w, "(* decompressor.nextBlockAt invalidates its block when readMember fails *)\nDefinition bgzf_reader_invalidates : bool := %v.\n", bg.c09readerInvalidates())
 		bg.c09emit(w, "bgzf_wskel_emitter", "", "NewWriterLevel", true)
